@@ -854,11 +854,17 @@ func (db *DB) Drop() (err error) {
 
 // DeleteAll deletes all Objects of the same type and commit changes
 func (db *DB) DeleteAll(of Object) (err error) {
+	// the list of objects and their deletion must happen under the
+	// same lock, otherwise objects inserted in between survive and
+	// DeleteAll is not atomic with regard to concurrent calls
+	db.Lock()
+	defer db.Unlock()
+
 	var it *iterator
-	if it, err = db.Iterator(of); err != nil {
+	if it, err = db.iterator(of); err != nil {
 		return
 	}
-	return db.DeleteObjects(it)
+	return db.deleteObjects(it)
 }
 
 // DeleteObjects deletes Objects from an Iterator and commit changes.
@@ -867,6 +873,12 @@ func (db *DB) DeleteObjects(from *iterator) (err error) {
 	db.Lock()
 	defer db.Unlock()
 
+	return db.deleteObjects(from)
+}
+
+// deleteObjects deletes Objects from an Iterator and commit changes,
+// the caller must hold the lock
+func (db *DB) deleteObjects(from *iterator) (err error) {
 	var o Object
 
 	defer db.commit(from.object())
